@@ -303,6 +303,45 @@ pub fn run(ctx: &mut Ctx) {
         },
         (0..70000u32).map(|i| if i % 97 == 0 { b'\n' } else { (i % 251) as u8 }).collect(),
     ];
+    let mut docs = docs;
+    if !quick {
+        // thorough: texts of every length around the hash block sizes (64/72/104/128/136/144), the 512-octet
+        // window of the canonicalising reader and the 64 KiB marks, over a line-ending-rich alphabet
+        let mut rng = ctx.rng("c11-docs", 0);
+        let mut lens: Vec<usize> = vec![];
+        for edge in [0usize, 56, 64, 72, 104, 112, 128, 136, 144, 256, 512, 1024, 1536, 4096, 8192, 65536] {
+            for d in [-2i64, -1, 0, 1, 2] {
+                let l = edge as i64 + d;
+                if l >= 0 {
+                    lens.push(l as usize);
+                }
+            }
+        }
+        for (i, l) in lens.iter().enumerate() {
+            let alpha: &[u8] = match i % 3 {
+                0 => b"\r\nab",
+                1 => b"\r\r\n\n \tz",
+                _ => b"\r\nabcdefghijklmnopqrstuvwxyz0123456789 ",
+            };
+            let mut d: Vec<u8> = (0..*l).map(|_| alpha[rng.gen_range(0..alpha.len())]).collect();
+            // pin the octets next to the 512-window edges to the interesting pairs
+            for e in (512..=*l).step_by(512) {
+                match (i / 3) % 4 {
+                    0 => d[e - 1] = b'\r',
+                    1 => {
+                        d[e - 1] = b'\r';
+                        if e < *l {
+                            d[e] = b'\n';
+                        }
+                    }
+                    2 => d[e - 1] = b'\n',
+                    _ => {}
+                }
+            }
+            docs.push(d);
+        }
+    }
+    let docs = docs;
     let uid_lens: &[usize] = if quick { &[0, 1, 40, 300, 70000] } else { &[0, 1, 2, 40, 191, 192, 255, 256, 300, 65535, 65536, 70000] };
 
     for (ki, k) in ks.iter().enumerate() {
@@ -505,7 +544,7 @@ pub fn run(ctx: &mut Ctx) {
 
         // ================= verify side: reference-made signatures
         let version: u8 = if k.v6 { 6 } else { 4 };
-        let nver = if slow { 14 } else { ctx.qt(105, 420) };
+        let nver = if slow { ctx.qt(14, 7 * docs.len()) } else { ctx.qt(105, 7 * docs.len() * 6) };
         for vi in 0..nver {
             if !ctx.mine() {
                 continue;
@@ -602,7 +641,7 @@ pub fn run(ctx: &mut Ctx) {
 
         // ================= v3 signatures (verify only), made by the reference with this key (v4 keys)
         if !k.v6 {
-            for vi in 0..ctx.qt(4, 24) {
+            for vi in 0..ctx.qt(4, 2 * docs.len()) {
                 if !ctx.mine() {
                     continue;
                 }
